@@ -1060,6 +1060,10 @@ class Unit:
         attrs = ''
         if opts.get('nodecreases'):
             attrs += '#[verifier::exec_allows_no_decreases_clause]\n'
+        if opts.get('noisolation'):
+            # loops see the facts established before them (needed where a `mut` parameter's entry value, R15, must stay
+            # linked to the parameter named in the postcondition)
+            attrs += '#[verifier::loop_isolation(false)]\n'
         if opts.get('external_body'):
             attrs += '#[verifier::external_body]\n'
         sha = __import__('hashlib').sha256(original.encode()).hexdigest()[:16]
